@@ -50,7 +50,7 @@ theorem C08_sieveSize_mod8_or_pow2 (cfg : EratCfg) (start stop kib : Nat)
     (h : ¬ (start > stop ∨ start ≥ umax)) :
     (EratGeom.init cfg start stop kib).sieveSize % 8 = 0 ∨
     ∃ k, (EratGeom.init cfg start stop kib).sieveSize = 2 ^ k := by
-  unfold EratGeom.init
+  unfold EratGeom.init EratGeom.sizes EratGeom.baseSize
   simp only [h, if_false]
   split_ifs <;> first
     | exact Or.inl (roundUp8_mod _)
